@@ -9,6 +9,10 @@ from vlib.ref import spectrum as rs
 from vlib.runner import Skip, Violation, hyp, known_predicate, known_probe, lentil_call
 from checks.c13_spectrum_arith import UNITS, grid_nm
 
+# the check's own calls are issued with keywords or positionally in the documented order (vlib/callforms.py)
+from vlib import callforms as _cf
+lentil = _cf.proxy(lentil)
+
 RULE = ("drawn spectra (uniform / non-uniform grids, four wavelength units); integration limits at sample points; "
         "bin-centre sets of any spacing (trapezoid) or uniform centres on uniformly sampled data (Simpson), both end "
         "treatments and power settings; programs of up to 15 crop/trim/pad/append/resample steps with arguments "
